@@ -20,12 +20,17 @@ def history(plan, rnd, nsteps, dense_until):
         lines.append("C " + k); ncont += 1; added.append(0)
     lines.append("CHECK all")
     hot = list(range(ncont))             # containers that receive most additions
+    last_call = None
     for s in range(nsteps):
         r = rnd.random()
         if r < 0.50:
-            e = rnd.choice(plan)
-            ix = [(-1 if (t in fsweep.OPT and rnd.random() < 0.3) else rnd.randrange(0, 48)) for t in e["sorts"]]
-            lines.append("%s %s" % (e["key"], " ".join(map(str, ix))))
+            if last_call and rnd.random() < 0.15:
+                lines.append(last_call)              # the very same call again, immediately: generative constructors must answer with a new node
+            else:
+                e = rnd.choice(plan)
+                ix = [(-1 if (t in fsweep.OPT and rnd.random() < 0.3) else rnd.randrange(0, 48)) for t in e["sorts"]]
+                last_call = "%s %s" % (e["key"], " ".join(map(str, ix)))
+                lines.append(last_call)
         elif r < 0.93:
             c = rnd.choice(hot) if rnd.random() < 0.9 else rnd.randrange(ncont)
             lines.append("M %d" % c); added[c] += 1
